@@ -474,15 +474,19 @@ def run_edit(case):
         thr = float(np.percentile(img, 98))
     bound = float(np.nextafter(3 * ps, 0))
     ops = [f"c08.validate {enc_rat(tw)} {enc_rat(bound)} {enc_rat(thr)} {enc_rat(case.get('diffusion') or 0.0)}"]
+    if case.get("tracker") == "lines":
+        ops = ["c08.validate 1/1 0/1 1/1 0/1"]  # track_lines has none of these parameters; the op only carries the dump
     import warnings
 
     steps = []
     try:
         kymo = make_kymo(case)
-        if case.get("tracker") == "lines":
-            group = kt.track_lines(kymo, "red", case["line_width"], case.get("max_lines", 10))
-        else:
-            group = kt.track_greedy(kymo, "red", **greedy_kwargs(case))
+        with warnings.catch_warnings():
+            warnings.simplefilter("ignore")
+            if case.get("tracker") == "lines":
+                group = kt.track_lines(kymo, "red", case["line_width"], case.get("max_lines", 10))
+            else:
+                group = kt.track_greedy(kymo, "red", **greedy_kwargs(case))
         steps.append({"step": "track", "tracks": dump_group(group)})
         for st in case["program"]:
             name = st[0]
@@ -1121,13 +1125,13 @@ def cases(tier, rng):
 
     # ---- seeded random
     r = rng.fork("c08-greedy")
-    for i in range(450 if quick else 6000):
+    for i in range(450 if quick else 4500):
         sub = r.fork(i)
         c = gen_greedy(sub, big=(not quick and sub.chance(0.03)))
         c.update({"stream": "random-greedy", "subseed": i})
         yield c
     r = rng.fork("c08-link")
-    for i in range(1500 if quick else 30000):
+    for i in range(1500 if quick else 20000):
         sub = r.fork(i)
         c = gen_link(sub)
         c.update({"stream": "random-link", "subseed": i})
@@ -1148,7 +1152,7 @@ def cases(tier, rng):
                "rect": [[off_grid(sub, lt, 0, 50, is_dyadic(lt)), off_grid(sub, ps, 0, 50, is_dyadic(ps))],
                         [off_grid(sub, lt, 0, 80, is_dyadic(lt)), off_grid(sub, ps, 0, 80, is_dyadic(ps))]]}
     r = rng.fork("c08-edit")
-    for i in range(60 if quick else 1200):
+    for i in range(60 if quick else 800):
         sub = r.fork(i)
         c = gen_edit(sub)
         c.update({"stream": "random-edit", "subseed": i})
